@@ -25,13 +25,22 @@ type From struct {
 	Style  string `json:"style"`
 }
 
+type Sasl struct {
+	Mech string `json:"mech"` // PLAIN | LOGIN
+	Az   string `json:"az"`   // empty | same | other
+}
+
 type Row struct {
 	Tbl    string `json:"tbl"`
 	Norm   string `json:"norm"`
-	Auth   Item   `json:"auth"` // a = "U" | "V" | "none"
+	Auth   Item   `json:"auth"` // a = "U" | "V" | "none": the account whose password the client presents
 	Mf     Item   `json:"mf"`
 	From   From   `json:"from"`
 	Sender Item   `json:"sender"`
+	Chk    bool   `json:"chk"`  // check_header
+	Sasl   Sasl   `json:"sasl"` // endpoint rows: mechanism and authorization identity
+	Nb     string `json:"nb"`   // endpoint rows: neighbour check: absent | none | quarantine | reject
+	Fam    string `json:"fam"`
 }
 
 const (
@@ -75,6 +84,15 @@ func wide(local string) string {
 // address: upper case, canonical decomposition, full-width letters (folded
 // by the PRECIS profiles maddy applies) and the A-label form of the domain.
 func Addr(it Item) string {
+	switch it.A {
+	case "null": // the null reverse-path
+		return ""
+	case "pm": // the special mailbox without a domain
+		if it.V == "upper" {
+			return "POSTMASTER"
+		}
+		return "postmaster"
+	}
 	mb, ok := mailbox[it.A]
 	if !ok {
 		panic("unknown mailbox " + it.A)
@@ -181,7 +199,7 @@ func q(s string) string { return fmt.Sprintf("%q", s) }
 
 // CheckConfig is the configuration block body of check.authorize_sender for
 // an entitlement table kind and a normalisation setting.
-func CheckConfig(tbl, norm string) string {
+func CheckConfig(tbl, norm string, chk bool) string {
 	self, alias := Addr(Item{"self", "plain"}), Addr(Item{"alias", "plain"})
 	var s string
 	switch tbl {
@@ -199,6 +217,9 @@ func CheckConfig(tbl, norm string) string {
 		s = "user_to_email identity\nprepare_email static {\n    entry " + q(alias) + " " + q(self) + "\n}\n"
 	default:
 		panic("unknown table kind " + tbl)
+	}
+	if !chk {
+		s += "check_header no\n"
 	}
 	return s + "auth_normalize " + norm + "\nfrom_normalize " + norm + "\n"
 }
